@@ -422,6 +422,7 @@ class AsyncWorld:
                          'site': site_of_tb(e.__traceback__)}
             finally:
                 c.t_done = w.clock.now
+                c.step_done = w.nstep
                 c.done = True
         self._spawn(runner(), c)
         return c
